@@ -13,12 +13,13 @@ theorem take_append_ge (x y : Bytes) (n : Nat) (h : x.length ≤ n) :
   rw [List.take_append]; simp [List.take_of_length_le h]
 
 theorem fullWrite_append : ∀ (todo : List FileHdr) (h : FileHdr) (cur : Bytes) (done : List Bytes) (x y : Bytes),
+    y ≠ [] →
     fullWrite h cur todo done (x ++ y) =
       (fullWrite h cur todo done x).bind (fun st => fullWriteSt st y) := by
   intro todo
   induction todo with
   | nil =>
-    intro h cur done x y
+    intro h cur done x y hy0
     by_cases hx : x = []
     · subst hx; simp [fullWrite, fullWriteSt, Except.bind]
     · by_cases hlt : x.length < h.size - cur.length
@@ -46,14 +47,12 @@ theorem fullWrite_append : ∀ (todo : List FileHdr) (h : FileHdr) (cur : Bytes)
           simp only [hd, if_true, fullWriteSt]
           rw [drop_append_ge x y _ (by omega), take_append_ge x y _ (by omega)]
           simp [hxl]
-          by_cases hy : y = []
-          · simp [hy, ← hxl]
-          · simp [hy]
+          simp [hy0]
         · have : (x ++ y).drop (h.size - cur.length) ≠ [] := by
             rw [List.drop_append]; simp [hd]
           simp [hd, this]
   | cons h' t ih =>
-    intro h cur done x y
+    intro h cur done x y hy0
     by_cases hx : x = []
     · subst hx; simp [fullWrite, fullWriteSt, Except.bind]
     · by_cases hlt : x.length < h.size - cur.length
@@ -82,13 +81,13 @@ theorem fullWrite_append : ∀ (todo : List FileHdr) (h : FileHdr) (cur : Bytes)
           have : h.size - cur.length - x.length = 0 := by omega
           simp [this]
         rw [e1, e2]
-        exact ih h' [] _ _ y
+        exact ih h' [] _ _ y hy0
 
-theorem fullWriteSt_append (st : FullSt) (x y : Bytes) (hx : x ≠ []) :
+theorem fullWriteSt_append (st : FullSt) (x y : Bytes) (hy : y ≠ []) :
     fullWriteSt st (x ++ y) = (fullWriteSt st x).bind (fun st' => fullWriteSt st' y) := by
   cases st with
-  | writing h cur todo done => exact fullWrite_append todo h cur done x y
-  | finished done => simp [fullWriteSt, hx, Except.bind]
+  | writing h cur todo done => exact fullWrite_append todo h cur done x y hy
+  | finished done => simp [fullWriteSt, Except.bind]
 
 theorem be32_append (s e : Bytes) (h : 4 ≤ s.length) : be32 (s ++ e) = be32 s := by
   rcases s with _ | ⟨a, _ | ⟨b, _ | ⟨c, _ | ⟨d, t⟩⟩⟩⟩ <;> simp [be32] at h ⊢
@@ -103,7 +102,7 @@ theorem sinkWrite_append (E : Ext) (due : Bool) (s : SinkSt) (a b : Bytes) (ha :
   cases s with
   | incremental d => simp [sinkWrite, Except.bind]
   | full dbh walhs st =>
-    simp only [sinkWrite, fullWriteSt_append st a b ha]
+    simp only [sinkWrite, fullWriteSt_append st a b hb]
     cases fullWriteSt st a with
     | error e => simp [Except.bind]
     | ok st' => simp [Except.bind, sinkWrite]
@@ -146,7 +145,7 @@ theorem sinkWrite_append (E : Ext) (due : Bool) (s : SinkSt) (a b : Bytes) (ha :
               cases odb with
               | none => simp [Except.bind]
               | some dbh =>
-                simp only [fullWrite_append]
+                simp only [fullWrite_append _ _ _ _ _ _ hb]
                 cases fullWrite dbh [] walhs [] (B.drop (4 + be32 B)) with
                 | error e => simp [Except.bind]
                 | ok st => simp [Except.bind, sinkWrite]
@@ -491,5 +490,48 @@ theorem frame_restores (E : Ext) (hb db : Bytes) (wals : List Bytes) (hl : hb.le
     (hd : E.decode hb = some ⟨1, .full (some (hdrFor E db)) (wals.map (hdrFor E))⟩) :
     restore E (frame hb (db :: wals)) = .ok db wals :=
   frame_restores_gen E hb db wals _ _ hl hd rfl rfl (sizesMatch_hdrFor E wals) (crc_hdrFor E wals)
+
+
+theorem be64_enc64_append (n : Nat) (x : Bytes) (h : n < 18446744073709551616) : be64 (enc64 n ++ x) = n := by
+  have hlo : n % 4294967296 < 4294967296 := Nat.mod_lt _ (by decide)
+  have hhi : n / 4294967296 % 4294967296 < 4294967296 := Nat.mod_lt _ (by decide)
+  have e : enc64 n ++ x = enc32 (n / 4294967296 % 4294967296) ++ (enc32 (n % 4294967296) ++ x) := by
+    simp [enc64, List.append_assoc]
+  rw [e]
+  have hb : ∀ (a : Nat) (y : Bytes), a < 4294967296 → be64 (enc32 a ++ y) = a * 4294967296 + be32 y := by
+    intro a y ha
+    have := be32_enc32_append' a [] ha
+    simp only [enc32, List.cons_append, List.nil_append, List.append_nil, be32] at this
+    simp only [enc32, List.cons_append, List.nil_append, be64]
+    rw [this]
+  rw [hb _ _ hhi, be32_enc32_append' _ _ hlo]
+  omega
+
+structure Zstd.Lawful (Z : Zstd) : Prop where
+  /-- a frame is self-delimiting: it decodes to its content whatever follows it -/
+  roundtrip : ∀ x t, Z.dec (Z.comp x ++ t) = (x, true)
+  /-- a frame cut short never ends cleanly and yields at most a prefix of its content -/
+  truncated : ∀ x k, k < (Z.comp x).length → (Z.dec ((Z.comp x).take k)).2 = false ∧ (Z.dec ((Z.comp x).take k)).1 <+: x
+
+theorem enc64_length (n : Nat) : (enc64 n).length = 8 := rfl
+
+/-- **transport_transparent.** When the compressed wire form fits into the `req.Size` bytes raft
+lets the receiver read, the receiver sees exactly the payload, without error. -/
+theorem transport_transparent (Z : Zstd) (hZ : Z.Lawful) (p : Bytes) (hp : p.length < 9223372036854775808)
+    (hfit : (sendWire Z p.length p).length ≤ p.length) :
+    recvWire Z p.length (sendWire Z p.length p) = ⟨p, false⟩ := by
+  have ht : (sendWire Z p.length p).take p.length = sendWire Z p.length p := List.take_of_length_le hfit
+  simp only [recvWire, ht]
+  have hne : sendWire Z p.length p ≠ [] := by simp [sendWire, enc64, enc32]
+  have hl8 : ¬ (sendWire Z p.length p).length < 8 := by simp [sendWire, enc64_length]
+  rw [if_neg hne, if_neg hl8]
+  have hn : be64 (sendWire Z p.length p) = p.length := be64_enc64_append _ _ (by omega)
+  have hd : (sendWire Z p.length p).drop 8 = Z.comp p := by
+    simp only [sendWire]; exact List.drop_left' (enc64_length _)
+  rw [hn, hd]
+  have := hZ.roundtrip p []
+  simp only [List.append_nil] at this
+  rw [this, if_neg (by omega)]
+  simp
 
 end RqModel.SnapStream
